@@ -42,6 +42,7 @@ type Unit struct {
 	Cross     bool                        `json:"cross"` // thorough tier: repeat with z3 5.1 and cvc5 and compare
 	What      string                      `json:"what"`
 	Hang      bool                        `json:"hang_is_violation"`
+	Conform   bool                        `json:"conform"` // translator validation: concrete harness, observations (vNote) compared with a native run
 }
 
 // CheckSpec describes the check of one property.
@@ -350,6 +351,8 @@ func checkMain(args []string) int {
 		rep.addUnit(o)
 	}
 	rep.crossCheck(outcomes)
+	os.RemoveAll(filepath.Join(*verif, "replay", spec.Property))
+	rep.conformAll(outcomes)
 	rep.replayAll()
 	code := rep.finish(time.Since(t0).Seconds(), *only == "")
 	return code
